@@ -67,6 +67,15 @@ def run(rep, repo, tier):
                 continue
             if e.term[1][0] == 'attr' and e.term[1][2] in ('pop', 'remove', 'clear', 'insert') or fn in ('random.sample',):
                 bad.append((e, fn))
+            if e.term[1][0] == 'attr' and e.term[1][2] in ('append', 'extend', 'add', 'update') and e.term[1][1][0] in ('bvar', 'idx') \
+                    and any(c.kind in ('for', 'while', 'iter') for c, _ in ctx):
+                # an element added to a list reached through a loop variable / a slot, outside the scatter itself (which the
+                # interpreter turns into the scatter term and does not report as a call)
+                bad.append((e, fn))
+        if e.kind == 'append' and e.target[0] in ('bvar', 'idx'):
+            bad.append((e, 'element added: %s.%s(%s)' % (show(e.target)[:40], e.op, show(e.value)[:40])))
+        if e.kind == 'augstore' and e.target[0] in ('bvar',):
+            bad.append((e, 'list extended in place: ' + show(e.target)[:60]))
         if e.kind in ('store', 'augstore') and e.target[0] == 'idx':
             bad.append((e, 'slot assignment ' + show(e.target)[:60]))
     # the returned lists must be the scattered lists themselves (not a sampled / sliced copy)
@@ -255,6 +264,12 @@ def check_spa_lists(rep, repo):
         if not was_set and s_[0] == 'comp' and len(s_[1]) == 1 and s_[1][0][0][3] == own and s_[1][0][1] != TRUE:
             # sorted([lookup(p) for p in own if <not seen before>]): the filter does the de-duplication - judged below, on the list
             c = s_
+        elif not was_set and s_[0] == 'comp' and len(s_[1]) == 1 and s_[1][0][0][3] == own and s_[1][0][1] == TRUE and not contains(s_[2], lambda x: x[0] in ('carried', 'prefix')):
+            # sorted(lookup(p) for p in own): one entry per ranked PROJECT, nothing filtered, no set: a lecturer offering two of the
+            # student's projects is listed twice
+            rep.fail('C12.R2', w, "a student's lecturers are de-duplicated over the whole list (a lecturer whose projects are ranked non-adjacently must still appear once)",
+                     got='one entry per ranked project, never filtered: ' + show(c)[:120], want='mask / set / membership test', construct='no de-duplication of the lecturers of a student')
+            return
         elif was_set and s_[0] == 'comp' and len(s_[1]) == 1 and s_[1][0][0][3] == own and s_[1][0][1] == TRUE:
             kind = 'set'
             proj = s_[1][0][0]
@@ -318,6 +333,11 @@ def check_spa_lists(rep, repo):
                          want='a marker that is never falsy (True, or `is None` as the test)', construct='seen-marker %s can be 0' % mname)
                 return
             rep.inconclusive('C12.R2', w, 'the de-duplicating structure is recognised (mask / set / membership)', got='a mask shared by all students: ' + show(g)[:120])
+            return
+        elif g == TRUE and c[0] == 'comp' and not contains(inner, lambda x: x[0] in ('setcomp', 'distinct') or (x[0] == 'call' and x[1] in (S('set'), S('frozenset'), A(S('dict'), 'fromkeys'), A(S('np'), 'unique')))):
+            # one entry per ranked PROJECT, nothing filtered, no set anywhere: a lecturer offering two of the student's projects is listed twice
+            rep.fail('C12.R2', w, "a student's lecturers are de-duplicated over the whole list (a lecturer whose projects are ranked non-adjacently must still appear once)",
+                     got='one entry per ranked project, never filtered: ' + show(inner)[:120], want='mask / set / membership test', construct='no de-duplication of the lecturers of a student')
             return
         elif contains(g, lambda x: x[0] == 'idx' and x[2] == C(-1)) or contains(g, lambda x: x[0] == 'carried' or x[0] == 'prefix'):
             rep.fail('C12.R2', w, "a student's lecturers are de-duplicated over the whole list (a lecturer whose projects are ranked non-adjacently must still appear once)",
